@@ -1239,10 +1239,9 @@ Proof.
   apply in_map_iff in Hin as (s & Es & Hs). destruct s as [t'|a']; cbn in Es; [|discriminate].
   inversion Es; subst t'.
   apply in_split in Hs as (l1 & l2 & El). rewrite El in Hr.
-  rewrite (app_assoc (hole_syms h)) , app_assoc in Hr.
   assert (Hso : sym_ok tb (T t) = true).
-  { eapply (pending_sym_ok _ _ _ [] l2 (T t) Hp). cbn [app]. rewrite Hr.
-    rewrite <- !app_assoc. reflexivity. }
+  { eapply (pending_sym_ok (f_p f) (f_pr f) (map root_sym (f_done f)) (hole_syms h ++ l1) l2 (T t) Hp).
+    rewrite Hr, <- app_assoc. reflexivity. }
   cbn [sym_ok] in Hso. apply andb_prop in Hso as [_ Hso]. apply N.ltb_lt. exact Hso.
 Qed.
 
